@@ -237,7 +237,7 @@ Definition bdd_to_mdd (dvars : list (nat * (nat * list nat))) (order : list posi
   let target := concat bits_in_order in
   let bit_to_sort : list (nat * nat) := imap (fun k b => (b, k)) target in
   collect_garbage None ;;;
-  reorder (Some (list_to_map bit_to_sort)) ;;;
+  reorder_pub (Some (list_to_map bit_to_sort)) ;;;
   let mdd0 := mdd_init (List.map (fun x : nat * (nat * list nat) =>
                            (x.1, (x.2.1, 2 ^ length x.2.2))) dvars) in
   s <- get ;;
